@@ -1,6 +1,7 @@
 import FeatModel.Lemmas.C06Unit
 import FeatModel.Lemmas.C06Mean
-import FeatModel.Model.LA.FilterMat
+import FeatModel.Lemmas.C06Slip
+import FeatModel.Lemmas.C06Mat
 /-! # C06 — filters impose their constraints exactly and idempotently
 
 All statements are about the functions of `FeatModel/Model/LA/Filter.lean` (and `FilterMat.lean`) that `drv_c06`
@@ -261,24 +262,192 @@ example : ∃ (f : MeanF Rat) (v w : List Rat), f.vol ≠ dotL f.prim f.dual ∧
   ⟨{ prim := [1], dual := [1], vol := 2, sol := 0 }, [1], [1 / 2], by decide +kernel, by decide +kernel, by decide +kernel⟩
 
 
-/-! ## clauses that are NOT proved here (full statements kept visible; they are covered by the correspondence run
-    of `drv_c06` against the real code plus the independent oracle of `checks/props/c06.py` only) -/
+/-! ## slip filter (exact over a field).  A successful run implies `ν · ν ≠ 0` for every entry (a zero normal divides
+    by zero = `none`); `e.1 < f.size` is the precondition `index < size` of `add` (ASSERT in debug builds). -/
 
-/-- slip filter: after the filter every constrained block has a vanishing normal component -/
-def C06.slip_normal_zero_statement : Prop :=
-  ∀ (α : Type) [Field α] [DecidableEq α] (f : SlipF α) (v w : List α),
-    (f.es.map Prod.fst).Nodup → f.filter v = some w →
-    ∀ e ∈ f.es, dotL (readBlock f.bs e.1 w) (SlipF.normal f.bs e) = 0
+/-- after the filter every constrained block has a vanishing normal component -/
+theorem C06.slip_normal_zero {α : Type} [Field α] [DecidableEq α] (f : SlipF α) (v w : List α)
+    (hn : (f.es.map Prod.fst).Nodup) (hin : ∀ e ∈ f.es, e.1 < f.size) (hrun : f.filter v = some w) :
+    ∀ e ∈ f.es, dotL (readBlock f.bs e.1 w) (SlipF.normal f.bs e) = 0 := by
+  intro e he
+  unfold SlipF.filter at hrun
+  split at hrun
+  · rename_i h0
+    have := hin e he
+    omega
+  · split at hrun
+    · simp at hrun
+    · rename_i hsz
+      have hlen : f.size * f.bs = v.length := by simpa using hsz
+      refine run_normal_zero f.bs f.es v w hrun hn (fun g hg => ?_) e he
+      have := Nat.mul_le_mul_left f.bs (Nat.succ_le_of_lt (hin g hg))
+      rw [Nat.mul_succ, Nat.mul_comm f.bs f.size] at this
+      omega
 
-/-- unit filter on a CSR matrix: a constrained row with exactly one stored diagonal entry becomes the unit row,
-    all other rows keep their dense meaning (a constrained row without stored diagonal becomes the zero row) -/
-def C06.unit_mat_rows_statement : Prop :=
-  ∀ (α : Type) [Field α] (f : UnitF α) (A B : FeatModel.LA.Csr α), A.wf = true → (∀ e ∈ f.es, e.1 < A.rows) →
-    f.filterMat A = some B →
-    (∀ i j, (∃ x, (i, x) ∈ f.es) →
-        (∃ k, A.rowBegin i ≤ k ∧ k < A.rowEnd i ∧ A.colInd.getD k 0 = i ∧
-          ∀ k', A.rowBegin i ≤ k' → k' < A.rowEnd i → A.colInd.getD k' 0 = i → k' = k) →
-        B.entry i j = if j = i then 1 else 0) ∧
-    (∀ i j, (∃ x, (i, x) ∈ f.es) →
-        (∀ k, A.rowBegin i ≤ k → k < A.rowEnd i → A.colInd.getD k 0 ≠ i) → B.entry i j = 0) ∧
-    (∀ i j, i < A.rows → (∀ e ∈ f.es, e.1 ≠ i) → B.entry i j = A.entry i j)
+/-- everything outside the constrained blocks is unchanged, and the length is kept -/
+theorem C06.slip_untouched {α : Type} [Field α] [DecidableEq α] (f : SlipF α) (v w : List α)
+    (hrun : f.filter v = some w) (p : Nat)
+    (hp : ∀ e ∈ f.es, ¬ (f.bs * e.1 ≤ p ∧ p < f.bs * e.1 + f.bs)) :
+    w[p]? = v[p]? ∧ w.length = v.length := by
+  unfold SlipF.filter at hrun
+  split at hrun
+  · simp only [Option.some.injEq] at hrun; subst hrun; exact ⟨rfl, rfl⟩
+  · split at hrun
+    · simp at hrun
+    · exact ⟨run_untouched f.bs f.es v w hrun p hp, run_length f.bs f.es v w hrun⟩
+
+/-- applying the slip filter again changes nothing -/
+theorem C06.slip_idempotent {α : Type} [Field α] [DecidableEq α] (f : SlipF α) (v w : List α)
+    (hn : (f.es.map Prod.fst).Nodup) (hin : ∀ e ∈ f.es, e.1 < f.size) (hrun : f.filter v = some w) :
+    f.filter w = some w := by
+  have hz := C06.slip_normal_zero f v w hn hin hrun
+  unfold SlipF.filter at hrun ⊢
+  split at hrun
+  · rename_i h0; simp [h0]
+  · rename_i h0
+    split at hrun
+    · simp at hrun
+    · rename_i hsz
+      have hlen : f.size * f.bs = v.length := by simpa using hsz
+      have hwl := run_length f.bs f.es v w hrun
+      have hsz' : (f.size * f.bs != w.length) = false := by simp [hwl, hlen]
+      simp only [h0, if_false, hsz', Bool.false_eq_true]
+      apply run_fixed
+      intro e he
+      refine ⟨run_normals_ne f.bs f.es v w hrun e he, hz e he, ?_⟩
+      have := Nat.mul_le_mul_left f.bs (Nat.succ_le_of_lt (hin e he))
+      rw [Nat.mul_succ, Nat.mul_comm f.bs f.size] at this
+      omega
+
+/-! ## unit filter on a well-formed CSR matrix (dense meaning `Csr.entry`, duplicates of a column would add) -/
+
+/-- a constrained row that stores its diagonal entry (exactly once) becomes the unit row `e_i` -/
+theorem C06.unit_mat_rows {α : Type} [CommSemiring α] (f : UnitF α) (A B : FeatModel.LA.Csr α)
+    (hwf : A.wf = true) (hes : ∀ e ∈ f.es, e.1 < A.rows) (hrun : f.filterMat A = some B)
+    (i j : Nat) (x : α) (hm : (i, x) ∈ f.es) (k0 : Nat) (hk0 : A.rowBegin i ≤ k0 ∧ k0 < A.rowEnd i)
+    (hc0 : A.colInd.getD k0 0 = i)
+    (huniq : ∀ k, A.rowBegin i ≤ k → k < A.rowEnd i → A.colInd.getD k 0 = i → k = k0) :
+    B.entry i j = if j = i then 1 else 0 := by
+  have h := (FeatModel.LA.Csr.wf_iff A).mp hwf
+  obtain ⟨e, hl⟩ := lastEntry_of_mem hm
+  rw [filterMat_some f A B hrun (List.ne_nil_of_mem hm), entry_constrained h f.es hes (hes _ hm) hl j]
+  exact sum_unit_row _ _ _ i j k0 hk0 hc0 huniq
+
+/-- the excluded point: a constrained row WITHOUT a stored diagonal entry becomes the zero row -/
+theorem C06.unit_mat_no_diag {α : Type} [CommSemiring α] (f : UnitF α) (A B : FeatModel.LA.Csr α)
+    (hwf : A.wf = true) (hes : ∀ e ∈ f.es, e.1 < A.rows) (hrun : f.filterMat A = some B)
+    (i j : Nat) (x : α) (hm : (i, x) ∈ f.es)
+    (hno : ∀ k, A.rowBegin i ≤ k → k < A.rowEnd i → A.colInd.getD k 0 ≠ i) :
+    B.entry i j = 0 := by
+  have h := (FeatModel.LA.Csr.wf_iff A).mp hwf
+  obtain ⟨e, hl⟩ := lastEntry_of_mem hm
+  rw [filterMat_some f A B hrun (List.ne_nil_of_mem hm), entry_constrained h f.es hes (hes _ hm) hl j]
+  exact sum_zero_row _ _ _ i j hno
+
+/-- all rows the filter does not constrain keep their dense meaning -/
+theorem C06.unit_mat_other_rows_untouched {α : Type} [CommSemiring α] (f : UnitF α) (A B : FeatModel.LA.Csr α)
+    (hwf : A.wf = true) (hes : ∀ e ∈ f.es, e.1 < A.rows) (hrun : f.filterMat A = some B)
+    (i j : Nat) (hi : i < A.rows) (hfree : ∀ e ∈ f.es, e.1 ≠ i) :
+    B.entry i j = A.entry i j := by
+  have h := (FeatModel.LA.Csr.wf_iff A).mp hwf
+  by_cases hne : f.es = []
+  · have : B = A := by
+      unfold UnitF.filterMat at hrun
+      simp only [hne, List.isEmpty_nil, if_true, Option.some.injEq] at hrun
+      exact hrun.symm
+    rw [this]
+  · rw [filterMat_some f A B hrun hne, entry_with_val, FeatModel.LA.Csr.entry_eq_sum_Ico]
+    apply Finset.sum_congr rfl
+    intro k hk
+    rw [Finset.mem_Ico] at hk
+    unfold UnitF.matVals
+    rw [rewriteRows_getD_free h f.es hes _ hi hk hfree]
+
+/-- the solution of the filtered system takes the prescribed boundary value: if `B = filter_mat A`,
+    `b' = filter_rhs b` and `sol` satisfies equation `i` of `B sol = b'` for a constrained row with stored diagonal,
+    then `sol[i]` is the prescribed value -/
+theorem C06.filtered_system_solution_takes_boundary_values {α : Type} [CommSemiring α] (f : UnitF α)
+    (A B : FeatModel.LA.Csr α) (hwf : A.wf = true) (hes : ∀ e ∈ f.es, e.1 < A.rows) (hrun : f.filterMat A = some B)
+    (b b' : List α) (hb : f.filterRhs b = some b')
+    (i : Nat) (x : α) (hx : lastWrite f.es i = some x) (hib : i < b.length)
+    (k0 : Nat) (hk0 : A.rowBegin i ≤ k0 ∧ k0 < A.rowEnd i) (hc0 : A.colInd.getD k0 0 = i)
+    (huniq : ∀ k, A.rowBegin i ≤ k → k < A.rowEnd i → A.colInd.getD k 0 = i → k = k0)
+    (sol : Array α) (hsol : B.rowSum sol i = b'.getD i 0) :
+    sol.getD i 0 = x := by
+  have h := (FeatModel.LA.Csr.wf_iff A).mp hwf
+  have hm := lastWrite_isSome_mem f.es i x hx
+  obtain ⟨e, hl⟩ := lastEntry_of_mem hm
+  have hi := hes _ hm
+  have hrow : B.rowSum sol i = sol.getD i 0 := by
+    rw [filterMat_some f A B hrun (List.ne_nil_of_mem hm), rowSum_with_val]
+    rw [← sum_unit_row_apply (A.rowBegin i) (A.rowEnd i) (fun k => A.colInd.getD k 0) i (fun c => sol.getD c 0) k0 hk0 hc0 huniq]
+    apply Finset.sum_congr rfl
+    intro k hk
+    rw [Finset.mem_Ico] at hk
+    rw [matVals_getD_constrained h f.es hes hi hk hl]
+  have hb' := C06.unit_rhs_constrained f b b' i x hb hx hib
+  rw [← hrow, hsol, List.getD_eq_getElem?_getD, hb']
+  rfl
+
+/-! ## chains / sequences of unit filters with pairwise disjoint index sets -/
+
+/-- an index that no member constrains is untouched by the whole chain (all modes) -/
+theorem C06.chain_units_untouched {α : Type} [Zero α] [One α] [Add α] [Mul α] [Sub α] [Neg α] [Div α] [DecidableEq α]
+    (m : Mode) (fs : List (UnitF α)) (v w : List α) (i : Nat)
+    (hrun : applyChain m (fs.map Flt.unit) (Vec.leaf v) = some (Vec.leaf w))
+    (hfree : ∀ g ∈ fs, ∀ e ∈ g.es, e.1 ≠ i) : w[i]? = v[i]? ∧ w.length = v.length := by
+  induction fs generalizing v with
+  | nil =>
+    simp only [List.map_nil, applyChain, Option.some.injEq, Vec.leaf.injEq] at hrun
+    subst hrun; exact ⟨rfl, rfl⟩
+  | cons g t ih =>
+    simp only [List.map_cons, applyChain, Flt.apply] at hrun
+    cases hg : g.apply m v with
+    | none => simp [hg] at hrun
+    | some v' =>
+      simp only [hg, Option.map_some] at hrun
+      obtain ⟨h1, h2⟩ := ih v' hrun (fun g' hg' => hfree g' (List.mem_cons_of_mem _ hg'))
+      obtain ⟨h3, h4⟩ := C06.unit_unconstrained_untouched m g v v' i hg (hfree g List.mem_cons_self)
+      exact ⟨h1.trans h3, h2.trans h4⟩
+
+/-- members with pairwise disjoint index sets: after the chain EVERY member's constraint holds exactly
+    (`filter_rhs` / `filter_sol`; compare `C06.chain_last_unit_wins` for overlapping members) -/
+theorem C06.chain_disjoint_all_constraints {α : Type} [Zero α] [One α] [Add α] [Mul α] [Sub α] [Neg α] [Div α]
+    [DecidableEq α] (fs : List (UnitF α)) (v w : List α)
+    (hrun : applyChain Mode.rhs (fs.map Flt.unit) (Vec.leaf v) = some (Vec.leaf w))
+    (hdis : fs.Pairwise (fun f g => ∀ a ∈ f.es, ∀ b ∈ g.es, a.1 ≠ b.1)) :
+    ∀ f ∈ fs, ∀ i x, lastWrite f.es i = some x → i < v.length → w[i]? = some x := by
+  induction fs generalizing v with
+  | nil => intro f hf; simp at hf
+  | cons g t ih =>
+    simp only [List.map_cons, applyChain, Flt.apply] at hrun
+    rw [List.pairwise_cons] at hdis
+    cases hg : g.apply Mode.rhs v with
+    | none => simp [hg] at hrun
+    | some v' =>
+      simp only [hg, Option.map_some] at hrun
+      have hlen : v'.length = v.length := by
+        simp only [UnitF.apply, UnitF.filterRhs] at hg
+        split at hg
+        · simp at hg; rw [hg]
+        · split at hg
+          · simp at hg
+          · simp at hg; rw [← hg, length_scatter]
+      intro f hf i x hx hi
+      rcases List.mem_cons.mp hf with hh | hh
+      · subst hh
+        have hmem := lastWrite_isSome_mem f.es i x hx
+        have hfree : ∀ g' ∈ t, ∀ e ∈ g'.es, e.1 ≠ i := by
+          intro g' hg' e he heq
+          exact hdis.1 g' hg' (i, x) hmem e he heq.symm
+        rw [(C06.chain_units_untouched Mode.rhs t v' w i hrun hfree).1]
+        exact C06.unit_rhs_constrained f v v' i x hg hx hi
+      · exact ih v' hrun hdis.2 f hh i x hx (by omega)
+
+/-- the hypotheses of the matrix theorems are satisfiable by a non-trivial value: a well-formed 2x2 CSR matrix, row 0
+    constrained (stored diagonal at position 0) becomes `(1, 0)`, row 1 keeps its entry -/
+example :
+    let A : FeatModel.LA.Csr Nat := { rows := 2, cols := 2, rowPtr := #[0, 2, 3], colInd := #[0, 1, 1], val := #[5, 6, 7] }
+    let f : UnitF Nat := { size := 2, es := [(0, 9)] }
+    A.wf = true ∧ (f.filterMat A).map (fun B => (B.val, B.entry 0 0, B.entry 0 1, B.entry 1 1)) = some (#[1, 0, 7], 1, 0, 7) := by
+  decide +kernel
